@@ -1,7 +1,7 @@
 (** * C20 proofs (instance R): every generated optical photon is physically valid. *)
 From Coq Require Import Reals ZArith List Bool Lra Lia.
 From Celer Require Import Base.Num Base.NumR Base.Stream Base.Vec3
-  C15.Samplers C15.SamplersProofs C20.Optical C20.RotateProofs.
+  C15.Samplers C15.SamplersProofs C20.RotateVariants C20.Optical C20.RotateProofs.
 Import ListNotations.
 Local Open Scope R_scope.
 
@@ -133,23 +133,23 @@ Proof.
 Qed.
 
 (** everything the theorems need about one Cerenkov photon *)
-Record ckv_photon_facts (min_acc : R) (k : consts) (es ns : list R) (d : gdist) (p : photon)
+Record ckv_photon_facts (rotf : vec3 R -> vec3 R -> vec3 R) (k : consts) (es ns : list R) (d : gdist) (p : photon)
     (cf_c cf_phi cf_u : R) : Prop := {
   cf_energy : front es <= ph_energy p <= back es;
   cf_cos : cf_c = mean_inv_beta d / gcalc es ns (ph_energy p);
   cf_cos_le : cf_c <= 1;
   cf_u_canon : canonical cf_u;
-  cf_dir : ph_dir p = rotate min_acc (from_spherical cf_c cf_phi) (step_dir d);
-  cf_pol : ph_pol p = rotate min_acc (from_spherical (- sqrt (1 - cf_c * cf_c)) cf_phi) (step_dir d);
+  cf_dir : ph_dir p = rotf (from_spherical cf_c cf_phi) (step_dir d);
+  cf_pol : ph_pol p = rotf (from_spherical (- sqrt (1 - cf_c * cf_c)) cf_phi) (step_dir d);
   cf_pos : ph_pos p = photon_pos d cf_u;
   cf_time : ph_time p = photon_time k d cf_u }.
 
-Lemma ckv_photon_spec min_acc k es ns d s p s' :
+Lemma ckv_photon_spec rotf k es ns d s p s' :
   front es <= back es -> Forall canonical s ->
-  ckv_photon min_acc k es ns d (ckv_construct k es ns d) s = Some (p, s') ->
-  (exists c phi u, ckv_photon_facts min_acc k es ns d p c phi u) /\ Forall canonical s'.
+  ckv_photon_with rotf k es ns d (ckv_construct k es ns d) s = Some (p, s') ->
+  (exists c phi u, ckv_photon_facts rotf k es ns d p c phi u) /\ Forall canonical s'.
 Proof.
-  intros Hg Hs Hrun. unfold ckv_photon in Hrun. bindinv Hrun.
+  intros Hg Hs Hrun. unfold ckv_photon_with in Hrun. bindinv Hrun.
   destruct a as [[e c] s2].
   destruct (ckv_energy_spec es ns _ Hg _ _ _ _ _ _ _ Hs E) as (He & Hc & Hc1 & Hs2 & Hs0).
   bindinv Hrun. apply uniform_Some in E0. destruct E0 as (uphi & -> & Hphi).
@@ -177,11 +177,12 @@ Lemma from_spherical_unit3 c p : -1 <= c <= 1 -> unit3 (from_spherical c p).
 Proof. apply from_spherical_unit. Qed.
 
 Section CkvPhoton.
-  Variables (min_acc : R) (k : consts (T:=R)) (es ns : list R) (d : gdist (T:=R)) (p : photon (T:=R)).
-  Hypothesis Hacc : 0 < min_acc.
+  Variables (rotf : vec3 R -> vec3 R -> vec3 R) (k : consts (T:=R)) (es ns : list R)
+            (d : gdist (T:=R)) (p : photon (T:=R)).
   Hypothesis Hin : ckv_inputs_ok es ns d.
+  Hypothesis Hiso : rot_isometry rotf (step_dir d).
   Variables (c phi u : R).
-  Hypothesis Hf : ckv_photon_facts min_acc k es ns d p c phi u.
+  Hypothesis Hf : ckv_photon_facts rotf k es ns d p c phi u.
 
   Lemma cf_c_range : 0 < c <= 1.
   Proof.
@@ -194,9 +195,8 @@ Section CkvPhoton.
 
   Lemma ckv_dir_unit : unit3 (ph_dir p).
   Proof.
-    rewrite (cf_dir _ _ _ _ _ _ _ _ _ Hf). apply rotate_unit; [exact Hacc| |].
-    - apply step_dir_unit. apply Hin.
-    - apply from_spherical_unit3. pose proof cf_c_range. lra.
+    rewrite (cf_dir _ _ _ _ _ _ _ _ _ Hf). apply (proj1 Hiso).
+    apply from_spherical_unit3. pose proof cf_c_range. lra.
   Qed.
 
   Lemma sin_range : -1 <= - sqrt (1 - c * c) <= 0.
@@ -209,17 +209,15 @@ Section CkvPhoton.
 
   Lemma ckv_pol_unit : unit3 (ph_pol p).
   Proof.
-    rewrite (cf_pol _ _ _ _ _ _ _ _ _ Hf). apply rotate_unit; [exact Hacc| |].
-    - apply step_dir_unit. apply Hin.
-    - apply from_spherical_unit3. pose proof sin_range. lra.
+    rewrite (cf_pol _ _ _ _ _ _ _ _ _ Hf). apply (proj1 Hiso).
+    apply from_spherical_unit3. pose proof sin_range. lra.
   Qed.
 
   Lemma ckv_pol_perp_dir : dot (ph_pol p) (ph_dir p) = 0.
   Proof.
     rewrite (cf_pol _ _ _ _ _ _ _ _ _ Hf), (cf_dir _ _ _ _ _ _ _ _ _ Hf).
     pose proof cf_c_range as Hc. pose proof sin_range as Hsr.
-    rewrite rotate_dot; try exact Hacc.
-    2:{ apply step_dir_unit. apply Hin. }
+    rewrite (proj2 Hiso).
     2:{ apply from_spherical_unit3. lra. }
     2:{ apply from_spherical_unit3. lra. }
     
@@ -235,14 +233,13 @@ Section CkvPhoton.
   Qed.
 
   (** on the Cerenkov cone about the step direction, cos(theta) = 1/(n(E) beta_mean) *)
-  Lemma ckv_on_cone : good_axis min_acc (step_dir d) ->
+  Lemma ckv_on_cone : rot_polar rotf (step_dir d) ->
     dot (ph_dir p) (step_dir d) = mean_inv_beta d / gcalc es ns (ph_energy p)
     /\ 0 < dot (ph_dir p) (step_dir d) <= 1.
   Proof.
     intros Hg. rewrite (cf_dir _ _ _ _ _ _ _ _ _ Hf).
     pose proof cf_c_range as Hc.
-    rewrite rotate_polar; try assumption.
-    2:{ apply step_dir_unit. apply Hin. }
+    rewrite Hg.
     2:{ apply from_spherical_unit3. lra. }
     unfold from_spherical. cbn [vz]. split; [apply (cf_cos _ _ _ _ _ _ _ _ _ Hf)|exact Hc].
   Qed.
@@ -261,15 +258,64 @@ Section CkvPhoton.
   Qed.
 End CkvPhoton.
 
-(** ** Theorems about the generator as run on a stream *)
+(** ** Theorems about the generator as run on a stream, for any rotation
+    function that is an isometry about the step direction *)
+Section WithRot.
+  Variable rotf : vec3 R -> vec3 R -> vec3 R.
+  Variables (k : consts (T:=R)) (es ns : list R) (d : gdist (T:=R)) (s : list R) (p : photon (T:=R)) (s' : list R).
+  Hypothesis Hrun : ckv_photon_with rotf k es ns d (ckv_construct k es ns d) s = Some (p, s').
+  Hypothesis Hs : Forall canonical s.
+
+  Lemma with_dir_pol : ckv_inputs_ok es ns d -> rot_isometry rotf (step_dir d) ->
+    dot (ph_dir p) (ph_dir p) = 1 /\ dot (ph_pol p) (ph_pol p) = 1 /\ dot (ph_pol p) (ph_dir p) = 0.
+  Proof.
+    intros Hin Hiso.
+    destruct (ckv_photon_spec _ _ _ _ _ _ _ _ (ci_grid _ _ _ Hin) Hs Hrun) as [(c & phi & u & Hf) _].
+    split; [exact (ckv_dir_unit _ _ _ _ _ _ Hin Hiso _ _ _ Hf)|].
+    split; [exact (ckv_pol_unit _ _ _ _ _ _ Hin Hiso _ _ _ Hf)|].
+    exact (ckv_pol_perp_dir _ _ _ _ _ _ Hin Hiso _ _ _ Hf).
+  Qed.
+
+  Lemma with_on_cone : ckv_inputs_ok es ns d -> rot_polar rotf (step_dir d) ->
+    dot (ph_dir p) (step_dir d) = mean_inv_beta d / gcalc es ns (ph_energy p)
+    /\ 0 < dot (ph_dir p) (step_dir d) <= 1.
+  Proof.
+    intros Hin Hpol.
+    destruct (ckv_photon_spec _ _ _ _ _ _ _ _ (ci_grid _ _ _ Hin) Hs Hrun) as [(c & phi & u & Hf) _].
+    exact (ckv_on_cone _ _ _ _ _ _ Hin _ _ _ Hf Hpol).
+  Qed.
+
+  Lemma with_energy_in_grid : front es <= back es -> front es <= ph_energy p <= back es.
+  Proof.
+    intros Hg.
+    destruct (ckv_photon_spec _ _ _ _ _ _ _ _ Hg Hs Hrun) as [(c & phi & u & Hf) _].
+    exact (cf_energy _ _ _ _ _ _ _ _ _ Hf).
+  Qed.
+
+  Lemma with_on_segment : front es <= back es -> on_segment (gd_p0 d) (gd_p1 d) (ph_pos p).
+  Proof.
+    intros Hg.
+    destruct (ckv_photon_spec _ _ _ _ _ _ _ _ Hg Hs Hrun) as [(c & phi & u & Hf) _].
+    exact (ckv_on_segment _ _ _ _ _ _ _ _ _ Hf).
+  Qed.
+
+  Lemma with_time_ge_pre : ckv_inputs_ok es ns d -> 0 < k_clight k -> 0 <= gd_len d -> gd_time d <= ph_time p.
+  Proof.
+    intros Hin Hc HL.
+    destruct (ckv_photon_spec _ _ _ _ _ _ _ _ (ci_grid _ _ _ Hin) Hs Hrun) as [(c & phi & u & Hf) _].
+    exact (ckv_time_ge _ _ _ _ _ _ Hin _ _ _ Hf Hc HL).
+  Qed.
+End WithRot.
+
+(** for the current source (Base/Vec3.v [rotate]) *)
 Lemma cerenkov_dir_unit min_acc k es ns d s p s' :
   0 < min_acc -> ckv_inputs_ok es ns d -> Forall canonical s ->
   ckv_photon min_acc k es ns d (ckv_construct k es ns d) s = Some (p, s') ->
   dot (ph_dir p) (ph_dir p) = 1.
 Proof.
   intros Hacc Hin Hs Hrun.
-  destruct (ckv_photon_spec _ _ _ _ _ _ _ _ (ci_grid _ _ _ Hin) Hs Hrun) as [(c & phi & u & Hf) _].
-  exact (ckv_dir_unit _ _ _ _ _ _ Hacc Hin _ _ _ Hf).
+  apply (with_dir_pol _ _ _ _ _ _ _ _ Hrun Hs Hin).
+  apply rotate_base_isometry; [exact Hacc|apply step_dir_unit; apply Hin].
 Qed.
 
 Lemma cerenkov_pol_unit min_acc k es ns d s p s' :
@@ -278,8 +324,8 @@ Lemma cerenkov_pol_unit min_acc k es ns d s p s' :
   dot (ph_pol p) (ph_pol p) = 1.
 Proof.
   intros Hacc Hin Hs Hrun.
-  destruct (ckv_photon_spec _ _ _ _ _ _ _ _ (ci_grid _ _ _ Hin) Hs Hrun) as [(c & phi & u & Hf) _].
-  exact (ckv_pol_unit _ _ _ _ _ _ Hacc Hin _ _ _ Hf).
+  apply (with_dir_pol _ _ _ _ _ _ _ _ Hrun Hs Hin).
+  apply rotate_base_isometry; [exact Hacc|apply step_dir_unit; apply Hin].
 Qed.
 
 Lemma cerenkov_pol_perp_dir min_acc k es ns d s p s' :
@@ -288,8 +334,8 @@ Lemma cerenkov_pol_perp_dir min_acc k es ns d s p s' :
   dot (ph_pol p) (ph_dir p) = 0.
 Proof.
   intros Hacc Hin Hs Hrun.
-  destruct (ckv_photon_spec _ _ _ _ _ _ _ _ (ci_grid _ _ _ Hin) Hs Hrun) as [(c & phi & u & Hf) _].
-  exact (ckv_pol_perp_dir _ _ _ _ _ _ Hacc Hin _ _ _ Hf).
+  apply (with_dir_pol _ _ _ _ _ _ _ _ Hrun Hs Hin).
+  apply rotate_base_isometry; [exact Hacc|apply step_dir_unit; apply Hin].
 Qed.
 
 Lemma cerenkov_on_cone min_acc k es ns d s p s' :
@@ -300,39 +346,42 @@ Lemma cerenkov_on_cone min_acc k es ns d s p s' :
   /\ 0 < dot (ph_dir p) (step_dir d) <= 1.
 Proof.
   intros Hacc Hin Hs Hg Hrun.
-  destruct (ckv_photon_spec _ _ _ _ _ _ _ _ (ci_grid _ _ _ Hin) Hs Hrun) as [(c & phi & u & Hf) _].
-  exact (ckv_on_cone _ _ _ _ _ _ Hacc Hin _ _ _ Hf Hg).
+  apply (with_on_cone _ _ _ _ _ _ _ _ Hrun Hs Hin).
+  apply rotate_base_polar; [exact Hacc|apply step_dir_unit; apply Hin|exact Hg].
+Qed.
+
+(** for the repaired rotate: on the cone for EVERY step direction *)
+Lemma cerenkov_on_cone_repaired min_acc k es ns d s p s' :
+  0 < min_acc -> ckv_inputs_ok es ns d -> Forall canonical s ->
+  ckv_photon_with (rotate_new min_acc) k es ns d (ckv_construct k es ns d) s = Some (p, s') ->
+  (dot (ph_dir p) (step_dir d) = mean_inv_beta d / gcalc es ns (ph_energy p)
+   /\ 0 < dot (ph_dir p) (step_dir d) <= 1)
+  /\ dot (ph_dir p) (ph_dir p) = 1 /\ dot (ph_pol p) (ph_pol p) = 1 /\ dot (ph_pol p) (ph_dir p) = 0.
+Proof.
+  intros Hacc Hin Hs Hrun.
+  pose proof (step_dir_unit d (ci_step _ _ _ Hin)) as Hu.
+  split.
+  - apply (with_on_cone _ _ _ _ _ _ _ _ Hrun Hs Hin). apply rotate_new_polar; assumption.
+  - apply (with_dir_pol _ _ _ _ _ _ _ _ Hrun Hs Hin). apply rotate_new_isometry; assumption.
 Qed.
 
 Lemma cerenkov_energy_in_grid min_acc k es ns d s p s' :
   front es <= back es -> Forall canonical s ->
   ckv_photon min_acc k es ns d (ckv_construct k es ns d) s = Some (p, s') ->
   front es <= ph_energy p <= back es.
-Proof.
-  intros Hg Hs Hrun.
-  destruct (ckv_photon_spec _ _ _ _ _ _ _ _ Hg Hs Hrun) as [(c & phi & u & Hf) _].
-  exact (cf_energy _ _ _ _ _ _ _ _ _ Hf).
-Qed.
+Proof. intros Hg Hs Hrun. exact (with_energy_in_grid _ _ _ _ _ _ _ _ Hrun Hs Hg). Qed.
 
 Lemma cerenkov_on_segment min_acc k es ns d s p s' :
   front es <= back es -> Forall canonical s ->
   ckv_photon min_acc k es ns d (ckv_construct k es ns d) s = Some (p, s') ->
   on_segment (gd_p0 d) (gd_p1 d) (ph_pos p).
-Proof.
-  intros Hg Hs Hrun.
-  destruct (ckv_photon_spec _ _ _ _ _ _ _ _ Hg Hs Hrun) as [(c & phi & u & Hf) _].
-  exact (ckv_on_segment _ _ _ _ _ _ _ _ _ Hf).
-Qed.
+Proof. intros Hg Hs Hrun. exact (with_on_segment _ _ _ _ _ _ _ _ Hrun Hs Hg). Qed.
 
 Lemma cerenkov_time_ge_pre min_acc k es ns d s p s' :
   ckv_inputs_ok es ns d -> 0 < k_clight k -> 0 <= gd_len d -> Forall canonical s ->
   ckv_photon min_acc k es ns d (ckv_construct k es ns d) s = Some (p, s') ->
   gd_time d <= ph_time p.
-Proof.
-  intros Hin Hc HL Hs Hrun.
-  destruct (ckv_photon_spec _ _ _ _ _ _ _ _ (ci_grid _ _ _ Hin) Hs Hrun) as [(c & phi & u & Hf) _].
-  exact (ckv_time_ge _ _ _ _ _ _ Hin _ _ _ Hf Hc HL).
-Qed.
+Proof. intros Hin Hc HL Hs Hrun. exact (with_time_ge_pre _ _ _ _ _ _ _ _ Hrun Hs Hin Hc HL). Qed.
 
 (** ** Threshold: below it dN/dx = 0 and the offload requests no photons and
     consumes no random numbers *)
